@@ -94,7 +94,11 @@ fn scripted(threads: usize, lel: bool) -> String {
 
 pub fn run_cachecut(a: &Args) {
     let mut out = Out::new(&a.out, "cachecut");
-    let runs = vec![format!("cache2 {}", scripted(2, true)), format!("cache3 {}", scripted(3, true)), format!("nocache2 {}", scripted(2, false))];
+    // a run whose script was not carried to its end (a wait expired because the OS starved a thread: `phase` below 4) says nothing
+    // about the code; it is repeated a few times.  A change to the code that makes the script unrealisable fails every attempt
+    // and is reported as it is.
+    let settled = |threads: usize, lel: bool| { let mut r = scripted(threads, lel); for _ in 0..4 { if r.contains("phase 4 ") { break; } r = scripted(threads, lel); } r };
+    let runs = vec![format!("cache2 {}", settled(2, true)), format!("cache3 {}", settled(3, true)), format!("nocache2 {}", settled(2, false))];
     out.case_tagged("cutwitness 6", &runs.join(" ; "), "scripted_schedule");
     out.finish();
 }
